@@ -7,6 +7,7 @@
 From Coq Require Import ZArith List Bool.
 From Cicada Require Import Model.Jobs Model.Term Proofs.TermProofs Proofs.JobsSpec Proofs.JobsInv Proofs.TermSim.
 From Cicada Require Import Model.WaitTerm Proofs.WaitTermProofs.
+From Cicada Require Model.WaitFg Proofs.WaitFgJobs.
 Import ListNotations.
 Local Open Scope Z_scope.
 
@@ -338,6 +339,150 @@ Theorem C07_settle_is_oracle_wait : forall c gid pids v rest ow m g fuel kk kt w
   end.
 Proof. exact settle_is_wait_o. Qed.
 
+(** ---------- round 9, second part *)
+
+(** K4 with a set [gone0] of members reaped BEFORE this wait (fg on a job one of whose
+    members was reaped earlier on the same line, the fg_gone sessions): ECHILD is answered
+    only when every member is in [gone0] or was reaped by a status delivered inside the
+    wait. Then every member is settled by the consumed statuses or in [gone0]; the status
+    is the one of the last non-continue status of the last member, if it has one. *)
+Theorem C07_wait_returns_settled_fg : forall (gone0 : Z -> Prop) c fuel q kk gid pids v rest ow m g s' st left,
+  K4_oracle_g gone0 pids q ->
+  wait_fg_o c fuel q kk gid pids v rest ow m g = WReturned s' st left ->
+  exists used, q = used ++ left /\
+    gh s' = g ++ [Wait gid pids (statuses used)] /\
+    (forall p, In p pids -> settled_in (statuses used) p \/ gone0 p) /\
+    (pids = [] -> st = 0) /\
+    (forall e, last_of (last pids 0) (statuses used) = Some e -> is_cont e = false -> st = ev_status e).
+Proof. exact wait_returns_settled_g. Qed.
+Check C07_wait_returns_settled_fg : forall (gone0 : Z -> Prop) c fuel q kk gid pids v rest ow m g s' st left,
+  K4_oracle_g gone0 pids q ->
+  wait_fg_o c fuel q kk gid pids v rest ow m g = WReturned s' st left ->
+  exists used, q = used ++ left /\
+    gh s' = g ++ [Wait gid pids (statuses used)] /\
+    (forall p, In p pids -> settled_in (statuses used) p \/ gone0 p) /\
+    (pids = [] -> st = 0) /\
+    (forall e, last_of (last pids 0) (statuses used) = Some e -> is_cont e = false -> st = ev_status e).
+
+(** non-vacuity: job [101; 102], 101 reaped before the wait; exit(102) does not reach the
+    count, ECHILD ends the wait; status 3 of the last member *)
+Example C07_wait_fg_nonvacuous :
+  let q := [RStatus (Exited 102 3); REchild] in
+  K4_oracle_g (fun p => p = 101) [101; 102] q /\
+  wview (wait_fg_o cfg0 3 q (k w3_start) 101 [101; 102] VFg [] 101 false []) = Some (true, 1, Between [], 3, []) /\
+  wview (wait_fg_o cfg0 3 (firstn 1 q) (k w3_start) 101 [101; 102] VFg [] 101 false []) =
+    Some (false, 101, Waiting 101 [101; 102] [102] VFg [], 3, []).
+Proof.
+  split; [|split; vm_compute; reflexivity].
+  intros evs1 post E p Hp. destruct evs1 as [|a [|b l]]; cbn in E; try discriminate E.
+  injection E as <- _. destruct Hp as [<-|[<-|[]]]; [right; reflexivity|].
+  left. exists (Exited 102 3). split; reflexivity.
+Qed.
+
+(** Term.v's own kernel model satisfies K4: whatever [next_status] / [all_gone] answer from
+    the processes [ps0], an ECHILD comes only after every pid has either no unreaped
+    process in [ps0] or an exit / kill status as its last status. PROVED, no hypothesis. *)
+Theorem C07_kernel_K4 : forall fuel ps0 pids, K4_oracle_g (gone0 ps0) pids (kreplies fuel ps0).
+Proof. exact kreplies_K4. Qed.
+
+(** ... and H1: after the statuses [evs1] the processes are [kafter (length evs1) ps0],
+    and for every pid whose last status in [evs1] is [e] there is a process with that pid
+    in exactly the state [e] reports (exit / kill: reaped; stop: stopped; continue: running). *)
+Theorem C07_kernel_truthful : forall evs1 fuel ps0 post,
+  kreplies fuel ps0 = map RStatus evs1 ++ post ->
+  forall p e, last_of p evs1 = Some e ->
+  exists pr, In pr (kafter (length evs1) ps0) /\ ppid pr = p /\ truthful e pr.
+Proof.
+  intros evs1 fuel ps0 post H.
+  destruct (kreplies_truth evs1 fuel ps0 post ps0 [] H (TInv_init ps0)) as [[T1 _] _]. exact T1.
+Qed.
+
+(** The composition, about [Term.settle] itself and without kernel hypothesis: a wait just
+    entered (empty settled set, as [enter_wait] starts it) on processes [procs kt]; if
+    [settle] comes back out of the loop then the terminal is the shell's (when it had been
+    handed over), the ghost history got the Wait with the consumed statuses, and every
+    member either had no unreaped process when the wait began or is settled by those
+    statuses AND a process with its pid is, in [procs] afterwards, reaped or stopped. *)
+Theorem C07_settle_returns_settled : forall c gid pids v rest ow m g fuel kt,
+  pids <> [] ->
+  let s' := settle c fuel (waiting_st kt gid pids [] v rest ow m g []) in
+  md s' = Between rest ->
+  owner s' = (if back v then c_sh c else ow) /\
+  exists evs, gh s' = g ++ [Wait gid pids evs] /\
+    forall p, In p pids ->
+      (settled_in evs p \/ gone0 (procs kt) p) /\
+      (gone0 (procs kt) p \/
+       exists pr, In pr (procs (k s')) /\ ppid pr = p /\ (Term.pst pr = PGone \/ Term.pst pr = PStop)).
+Proof. exact settle_returns_settled. Qed.
+Check C07_settle_returns_settled : forall c gid pids v rest ow m g fuel kt,
+  pids <> [] ->
+  let s' := settle c fuel (waiting_st kt gid pids [] v rest ow m g []) in
+  md s' = Between rest ->
+  owner s' = (if back v then c_sh c else ow) /\
+  exists evs, gh s' = g ++ [Wait gid pids evs] /\
+    forall p, In p pids ->
+      (settled_in evs p \/ gone0 (procs kt) p) /\
+      (gone0 (procs kt) p \/
+       exists pr, In pr (procs (k s')) /\ ppid pr = p /\ (Term.pst pr = PGone \/ Term.pst pr = PStop)).
+
+(** non-vacuity: the job 101 | 102 | 103, 101 stopped, 102 exited, 103 killed when the
+    wait is entered: settle returns; processes afterwards stopped / reaped / reaped *)
+Definition w3_procs : list proc :=
+  on_pid (deliver 9) 103 (on_pid (do_exit 4) 102 (on_pid (deliver 19) 101 (procs (k w3_start)))).
+Definition w3_kt : core := mkcore w3_procs (shl (k w3_start)) [].
+Example C07_settle_nonvacuous :
+  let s' := settle cfg0 4 (waiting_st w3_kt 101 [101; 102; 103] [] (VLaunch true) [] 101 false [] []) in
+  md s' = Between [] /\ owner s' = 1 /\ map Term.pst (procs (k s')) = [PStop; PGone; PGone] /\
+  gh s' = [Wait 101 [101; 102; 103] [StoppedE 101 19; Exited 102 4; Signaled 103 9]].
+Proof. vm_compute. repeat split. Qed.
+
+(** The oracle loop of Model/WaitTerm.v (= [Term.settle], C07_settle_is_oracle_wait) and
+    C06's [Jobs.wait_fg_job] / [Jobs.wait_loop] (tied in-process by C06's harness) are one
+    function: on the same statuses, from the same shell value (and, for the loops, the same
+    settled set and status) they stop at the same status with the same job table + parked
+    maps, the same cmd_result.status and the same statuses left; statuses running out is
+    [w_blocked] there and [WBlocked] here ([same_result]). *)
+Theorem C07_wait_o_is_jobs_wait_loop : forall c gid pids v rest ow m g evs fuel kk w we status,
+  (length evs < fuel)%nat ->
+  same_result (Jobs.wait_loop evs (shl kk) gid pids (last pids 0) (length pids) w status)
+              (wait_o c fuel (map RStatus evs) kk gid pids w v rest ow m g we status).
+Proof. exact wait_o_is_wait_loop. Qed.
+Check C07_wait_o_is_jobs_wait_loop : forall c gid pids v rest ow m g evs fuel kk w we status,
+  (length evs < fuel)%nat ->
+  same_result (Jobs.wait_loop evs (shl kk) gid pids (last pids 0) (length pids) w status)
+              (wait_o c fuel (map RStatus evs) kk gid pids w v rest ow m g we status).
+
+Theorem C07_wait_fg_o_is_jobs_wait_fg_job : forall c gid pids v rest ow m g evs fuel kk,
+  (length evs < fuel)%nat ->
+  same_result (Jobs.wait_fg_job (shl kk) gid pids evs)
+              (wait_fg_o c fuel (map RStatus evs) kk gid pids v rest ow m g).
+Proof. exact wait_fg_o_is_wait_fg_job. Qed.
+
+(** C06's model has no ECHILD answer (running out of statuses is what the injection hook
+    turns into ECHILD): where [Jobs.wait_loop] ends blocked, the oracle loop given the
+    same statuses and then ECHILD returns with that shell and that status. *)
+Theorem C07_wait_o_echild_is_jobs_blocked : forall c gid pids v rest ow m g evs fuel kk w we status post,
+  (length evs < fuel)%nat ->
+  w_blocked (Jobs.wait_loop evs (shl kk) gid pids (last pids 0) (length pids) w status) = true ->
+  exists s',
+    wait_o c fuel (map RStatus evs ++ REchild :: post) kk gid pids w v rest ow m g we status =
+      WReturned s' (w_status (Jobs.wait_loop evs (shl kk) gid pids (last pids 0) (length pids) w status)) post /\
+    shl (k s') = w_sh (Jobs.wait_loop evs (shl kk) gid pids (last pids 0) (length pids) w status).
+Proof. exact wait_o_echild_is_blocked. Qed.
+
+(** The third transcription, [Model.WaitFg.wait_loop] (C02's, over raw (pid, kind, val)
+    triples, tied in-process by C02's harness): on the encoded statuses ([WaitFgJobs.enc]) it
+    returns the same cmd_result.status and leaves the same statuses as [Jobs.wait_loop], from
+    any settled set / status, when no member has pid 0 (the [is_exited] quirk). So
+    Term.settle = wait_o = Jobs.wait_loop = WaitFg.wait_loop on status and consumption. *)
+Theorem C07_waitfg_is_jobs_wait_loop : forall pids pl cc gid, ~ In 0 pids ->
+  forall evs s status settled consumed side,
+  WaitFg.r_status (WaitFg.wait_loop pids pl cc (map WaitFgJobs.enc evs) status settled consumed side) =
+    Jobs.w_status (Jobs.wait_loop evs s gid pids pl cc settled status) /\
+  WaitFg.r_left (WaitFg.wait_loop pids pl cc (map WaitFgJobs.enc evs) status settled consumed side) =
+    map WaitFgJobs.enc (Jobs.w_left (Jobs.wait_loop evs s gid pids pl cc settled status)).
+Proof. exact WaitFgJobs.waitfg_is_jobs. Qed.
+
 Print Assumptions C07_prompt_owner.
 Print Assumptions C07_owner_cases.
 Print Assumptions C07_bg_never_owner.
@@ -352,3 +497,11 @@ Print Assumptions C07_wait_returns_settled.
 Print Assumptions C07_wait_gives_back_terminal.
 Print Assumptions C07_wait_fuel_suffices.
 Print Assumptions C07_settle_is_oracle_wait.
+Print Assumptions C07_wait_returns_settled_fg.
+Print Assumptions C07_kernel_K4.
+Print Assumptions C07_kernel_truthful.
+Print Assumptions C07_settle_returns_settled.
+Print Assumptions C07_wait_o_is_jobs_wait_loop.
+Print Assumptions C07_wait_fg_o_is_jobs_wait_fg_job.
+Print Assumptions C07_wait_o_echild_is_jobs_blocked.
+Print Assumptions C07_waitfg_is_jobs_wait_loop.
